@@ -16,6 +16,7 @@ import (
 	"os/user"
 	"runtime"
 	"slices"
+	"strconv"
 	"strings"
 	"sync"
 	"time"
@@ -732,11 +733,15 @@ func (p *ProjectRunner) getCurrentReplicaCount(name string) int {
 func (p *ProjectRunner) scaleUpProcess(proc types.ProcessConfig, toAdd, scale, origScale int) {
 	for i := 0; i < toAdd; i++ {
 		var procFromConf types.ProcessConfig
-		err := json.Unmarshal([]byte(proc.OriginalConfig), &procFromConf)
+		decoder := json.NewDecoder(strings.NewReader(proc.OriginalConfig))
+		decoder.UseNumber()
+		err := decoder.Decode(&procFromConf)
 		if err != nil {
 			log.Err(err).Msgf("failed to unmarshal config for %s", proc.Name)
 			return
 		}
+		restoreNumbers(procFromConf.Vars)
+		restoreNumbers(procFromConf.Extensions)
 		procFromConf.ReplicaNum = origScale + i
 		procFromConf.Replicas = scale
 		procFromConf.ReplicaName = procFromConf.CalculateReplicaName()
@@ -745,6 +750,32 @@ func (p *ProjectRunner) scaleUpProcess(proc types.ProcessConfig, toAdd, scale, o
 		procFromConf.AssignProcessExecutableAndArgs(p.project.ShellConfig, p.project.GetElevatedShellArg())
 		p.addProcessAndRun(procFromConf)
 	}
+}
+
+// restoreNumbers turns the json.Number values of a decoded map back into the int / float64 values that the
+// YAML loader produces, so that a replica created by scaling renders exactly like a loaded one.
+func restoreNumbers(v interface{}) interface{} {
+	switch val := v.(type) {
+	case json.Number:
+		if i, err := strconv.Atoi(val.String()); err == nil {
+			return i
+		}
+		f, _ := val.Float64()
+		return f
+	case types.Vars:
+		for k, e := range val {
+			val[k] = restoreNumbers(e)
+		}
+	case map[string]interface{}:
+		for k, e := range val {
+			val[k] = restoreNumbers(e)
+		}
+	case []interface{}:
+		for i, e := range val {
+			val[i] = restoreNumbers(e)
+		}
+	}
+	return v
 }
 
 func (p *ProjectRunner) scaleDownProcess(name string, scale int) {
